@@ -896,7 +896,8 @@ Proof. reflexivity. Qed.
 Theorem adff_no_reset w q d init clk_edge : adff_next w q d init clk_edge false = dff_next q d clk_edge.
 Proof. reflexivity. Qed.
 
-(* F7: on a reset rise WITHOUT a clock edge the simulator runs the whole sync process; a reset-less signal of an
+(* F7 (repaired in /repo by 574e1db): IF the sync process were run on a reset rise WITHOUT a clock edge (as the simulator
+   used to), a reset-less signal of an
    async-reset domain (lowered to a plain $dff, which holds) then differs: a = Signal(4, reset_less), a <= a + 1 *)
 Theorem async_reset_rise_refuted : exists tab ss r st i,
   sd_reset_less (tab i) = true /\
